@@ -27,16 +27,17 @@ RULE = ('Hypothesis-generated cases = (backend configuration, short prior histor
         'under test): file cache (6 directory layouts, link_single_color_images off/symlink/hardlink, dimensions, '
         'optional file/directory permissions), compact v1 / v2 (store_tile, store_tiles within one bundle and across '
         'bundles, remove_tile; tile positions include the 16 v1 index entries that straddle a 4096-byte boundary; '
-        'record sizes 80 B..20 kB), LegendCache.store, seed ProgressStore.write.  The store under test is recorded '
+        'record sizes 150 B..20 kB), LegendCache.store, seed ProgressStore.write.  The store under test is recorded '
         'at the raw write(2)/rename/unlink/... layer; EVERY prefix of the op list and every cut of a write at a '
         '4096-byte file-offset boundary is materialised from the pre-state snapshot and read back by a fresh cache '
         'object (each address in {old bytes, new bytes}, missing only where the property allows it, other addresses '
         'unchanged, no exception).  Then, on copies of that crashed directory, a restarted process (fresh object) '
         '(a) stores a DIFFERENT address of the same bundle / directory, (b) overwrites a prior address that is not '
-        'part of the store (compact: preferably in a bundle the store writes to) - everything that was visible right '
-        'after the crash must read the same afterwards, the follow-up address its new bytes - and (c) repeats the '
+        'part of the store (compact: preferably in a bundle the store writes to), (a2) stores different, clearly '
+        'smaller / clearly larger content to the SAME addresses (also legend and progress file) - everything that was '
+        'visible right after the crash must read the same afterwards, the follow-up addresses exactly their new bytes - and (c) repeats the '
         'same store (must succeed despite stale lock / temp files and yield the new content).  Continuations run on '
-        'every crash state of the file and compact caches (counted in notes).  One evaluation = one crash state.  A crash state is '
+        'every crash state (counted in notes).  One evaluation = one crash state.  A crash state is '
         'non-trivial when the crash index lies strictly inside the op list (or is a torn write) of a case whose '
         'store overwrites existing content or writes into an already existing bundle; distinct = distinct '
         '(case, crash index, cut).  Byte-granular cuts are explored too but only counted (beyond-model notes).')
@@ -79,7 +80,10 @@ COLORS = [(255, 0, 0), (0, 0, 0), (12, 200, 77)]
 def _png(color):
     if color not in _PNG:
         from PIL import Image
-        if color is None:
+        if color == 'tiny':
+            img = Image.new('1', (2, 1))
+            img.putpixel((1, 0), 1)
+        elif color is None:
             img = Image.new('RGB', (8, 8), (1, 2, 3))
             img.putpixel((3, 4), (200, 100, 50))
             img.putpixel((0, 7), (9, 9, 9))
@@ -92,7 +96,10 @@ def _png(color):
 
 
 def payload(img):
-    """valid PNG (single colour `color` index or a pattern) + unique tag + deterministic filler up to `size`"""
+    """valid PNG (single colour `color` index or a pattern) + unique tag + deterministic filler up to `size`;
+    'tiny': the smallest payload (2x1 two-colour PNG + short tag), smaller than every other one"""
+    if img.get('tiny'):
+        return _png('tiny') + b'|t%d|' % img['tag']
     head = _png(img.get('color')) + b'|TAG%08d|' % img['tag']
     n = max(0, img.get('size', 0) - len(head))
     if n:
@@ -100,7 +107,7 @@ def payload(img):
     return head
 
 
-SIZES = [0, 0, 300, 3000, 4050, 4200, 5000, 8200, 9000, 13000, 20000]
+SIZES = [150, 150, 300, 3000, 4050, 4200, 5000, 8200, 9000, 13000, 20000]
 
 # ------------------------------------------------------------------------------------------------
 # address pools
@@ -289,7 +296,21 @@ class TileBackend(object):
             a = (same or prior)[0]
             out.append(('prior-overwrite', {'kind': 'store', 'dim': a[1], 'tiles': [
                 {'coord': list(a[0]), 'img': {'color': None, 'size': 0, 'tag': 900002}}]}, a))
+        # the SAME addresses again with different content of a clearly smaller / larger size (a temp file or
+        # record left behind by the crashed store must not leak into what gets published now)
+        for variant, img in (('same-address-smaller', {'tiny': True}), ('same-address-larger', {'color': None, 'size': 24000})):
+            tiles = []
+            for i, t in enumerate(store['tiles']):
+                im = dict(img)
+                im['tag'] = (900100 if 'tiny' in img else 900200) + i
+                tiles.append({'coord': list(t['coord']), 'img': im})
+            out.append((variant, {'kind': 'store' if len(tiles) == 1 else 'store_tiles', 'dim': d, 'tiles': tiles},
+                        self.op_addresses(store)[0]))
         return out
+
+    def expected(self, op):
+        """address -> bytes a follow-up store must make readable (follow-ups use pattern images: never linked)"""
+        return dict(((tuple(t['coord']), op['dim'] if self.dims else 0), payload(t['img'])) for t in op['tiles'])
 
     def addresses(self):
         """prior + batch + follow-up addresses + sampled others (east neighbour of each batch tile; same tile,
@@ -361,7 +382,13 @@ class LegendBackend(object):
     dims = False
 
     def followups(self):
-        return []
+        leg = self.case['store']['legend']
+        return [('same-address-smaller', {'kind': 'store', 'legend': leg, 'img': {'tiny': True, 'tag': 900100}}, leg),
+                ('same-address-larger', {'kind': 'store', 'legend': leg,
+                                         'img': {'color': None, 'size': 24000, 'tag': 900200}}, leg)]
+
+    def expected(self, op):
+        return {op['legend']: payload(op['img'])}
 
     def __init__(self, case):
         self.case = case
@@ -418,7 +445,12 @@ class ProgressBackend(object):
     dims = False
 
     def followups(self):
-        return []
+        # a re-started seed without --continue starts from an empty status: the file gets smaller
+        return [('same-address-smaller', {'kind': 'write', 'tasks': 1, 'salt': 7, 'tag': 900100, 'fresh': True}, 'progress'),
+                ('same-address-larger', {'kind': 'write', 'tasks': 900, 'salt': 8, 'tag': 900200, 'fresh': True}, 'progress')]
+
+    def expected(self, op):
+        return {'progress': repr(sorted(_progress_status(op).items(), key=repr)).encode()}
 
     def __init__(self, case):
         self.case = case
@@ -431,6 +463,8 @@ class ProgressBackend(object):
 
     def apply(self, store, op):
         # what ProgressLog.log_progress does: add() on the loaded status, then write()
+        if op.get('fresh'):
+            store.status = {}
         for k, v in _progress_status(op).items():
             store.add(k, v)
         store.write()
@@ -479,24 +513,34 @@ class _patched_env(object):
         self.seed = seed
 
     def __enter__(self):
-        from mapproxy.util import fs
-        from mapproxy.cache import compact
-        from mapproxy.util import lock
-        self._fs_random = fs.random
-        fs.random = random.Random(self.seed)
-        self._FileLock = compact.FileLock
-
-        class ShortFileLock(lock.FileLock):
-            def __init__(self, lock_file, timeout=60.0, step=0.01, **kw):
-                lock.FileLock.__init__(self, lock_file, timeout=0.25, step=0.01, **kw)
-        compact.FileLock = ShortFileLock
+        # replace module attributes only where the tree under test has them (a tree that e.g. no longer imports
+        # `random` in util/fs.py must not make the harness die)
+        self._saved = []
+        try:
+            from mapproxy.util import fs
+            if hasattr(fs, 'random'):
+                self._set(fs, 'random', random.Random(self.seed))
+            from mapproxy.cache import compact
+            from mapproxy.util import lock
+            base = getattr(lock, 'FileLock', None)
+            if base is not None and getattr(compact, 'FileLock', None) is base:
+                class ShortFileLock(base):
+                    def __init__(self, lock_file, timeout=60.0, step=0.01, **kw):
+                        base.__init__(self, lock_file, timeout=0.25, step=0.01, **kw)
+                self._set(compact, 'FileLock', ShortFileLock)
+        except BaseException:
+            self.__exit__()
+            raise
         return self
 
+    def _set(self, obj, name, value):
+        self._saved.append((obj, name, getattr(obj, name)))
+        setattr(obj, name, value)
+
     def __exit__(self, *exc):
-        from mapproxy.util import fs
-        from mapproxy.cache import compact
-        fs.random = self._fs_random
-        compact.FileLock = self._FileLock
+        for obj, name, old in reversed(self._saved):
+            setattr(obj, name, old)
+        self._saved = []
         return False
 
 
@@ -747,24 +791,24 @@ def _continuation(r, cdir, variant, fop, faddr, seen, split, tolerate, loc, wher
         return core.Violation('C06/%s/%s/%s' % (case['backend'], loc, kind),
                               '%s: a follow-up store of %r after restart raises %r' % (where, faddr, e), vcase)
     reader = be.make(cdir)
-    want_f = payload(fop['tiles'][0]['img'])
+    fwant = be.expected(fop)
     for a in r.addrs:
-        if a in split and tolerate and SIG_V1_TORN_ENTRY in open_sigs():
+        if a in split and a not in fwant and tolerate and SIG_V1_TORN_ENTRY in open_sigs():
             continue  # the known torn v1 index entry points at arbitrary bytes
-        if seen[a] is _UNREADABLE and a != faddr:
+        if seen[a] is _UNREADABLE and a not in fwant:
             continue  # only reachable for a tolerated known deviation (anything else was reported above)
         try:
             got = be.read(reader, a)
         except Exception as e:
             return core.Violation('C06/%s/%s/followup-%s-unreadable' % (case['backend'], loc, variant),
                                   '%s: after a follow-up store of %r, reading %r raises %r' % (where, faddr, a, e), vcase)
-        want = want_f if a == faddr else seen[a]
+        want = fwant[a] if a in fwant else seen[a]
         if got != want:
-            kind = 'not-stored' if a == faddr else ('changes-batch-tile' if a in r.batch else 'changes-other-tile')
+            kind = 'not-stored' if a in fwant else ('changes-batch-tile' if a in r.batch else 'changes-other-tile')
             return core.Violation('C06/%s/%s/followup-%s-%s' % (case['backend'], loc, variant, kind),
-                                  '%s: after a follow-up store of %r by a restarted process, %r reads %s; right after '
-                                  'the crash it read %s%s' % (where, faddr, a, _fmt(got), _fmt(want),
-                                                             ' (the follow-up content)' if a == faddr else ''), vcase)
+                                  '%s: after a follow-up store of %r by a restarted process, %r reads %s; expected what '
+                                  'it read right after the crash / the follow-up content: %s%s' % (where, faddr, a, _fmt(got), _fmt(want),
+                                                             ' (the follow-up content)' if a in fwant else ''), vcase)
     return None
 
 
